@@ -26,7 +26,7 @@ Bases == {"plain", "grouped", "timerange", "having", "fromsub", "insub", "crosst
 Ops == {"drop_from", "drop_select", "dup_where", "reorder", "truncate_half", "truncate_tail", "unbalanced_open", "unbalanced_close",
         "unknown_table", "unknown_field", "unknown_func", "arity_less", "arity_more", "argtype_string", "argtype_field", "argtype_star",
         "bad_duration", "bad_time", "deep_nesting", "keyword_ident", "quote_unclosed", "quote_escape", "huge_number", "negative_limit", "unicode",
-        "control_bytes", "stmt_sep", "comment", "empty_in", "nested_aggregate", "agg_in_where", "dim_in_select", "alias_clash",
+        "control_bytes", "stmt_sep", "comment", "comment_quote", "empty_in", "nested_aggregate", "agg_in_where", "dim_in_select", "alias_clash",
         "zero_period", "odd_period", "lua_scalar", "subquery_in_select", "join", "star_args"}
 
 SelectInputs == {[kind |-> "select", base |-> b, ops |-> <<o>>] : b \in Bases, o \in Ops \cup {"none"}}
